@@ -35,7 +35,8 @@ def clifford_from_stabilizer(stabilizer_tableau):
     :rtype: CliffordTableau
     """
     n_qubits = stabilizer_tableau.n_qubits
-    _, circuit = inverse_circuit(stabilizer_tableau)
+    # inverse_circuit reduces the tableau it is given in place: work on a copy so that the caller's tableau is unchanged
+    _, circuit = inverse_circuit(stabilizer_tableau.copy())
     clifford_tableau = sfc.create_n_ket0_state(n_qubits)
     return transform.run_circuit(clifford_tableau, circuit, reverse=True)
 
